@@ -11,6 +11,7 @@ import (
 	"fmt"
 	"math/rand"
 	"os"
+	"sort"
 	"strconv"
 	"sync"
 	"sync/atomic"
@@ -51,6 +52,7 @@ type nhParams struct {
 	finalCrash bool // crash all hosts at the end and check that completed writes survived
 	snapshots  bool
 	sessions   bool
+	closeRace  bool // epilogue: request APIs racing NodeHost.Close
 	stopStart  bool // StopShard / restart replica / close NodeHost while requests are in flight
 	maxZombies int
 	thinkUs    int
@@ -745,6 +747,101 @@ func nhScenario(t *testing.T, rec *nhRec, tid int, seed int64, p nhParams) {
 	if p.finalCrash {
 		r.finalCheck(true)
 	}
+	if p.closeRace {
+		r.closeRace(seed)
+	}
+}
+
+// closeRace (C12, "NodeHost close" interleavings): client goroutines keep calling the request APIs
+// of one NodeHost while it is closed. Every call must return (an error or a handle), no call may
+// panic, and every handle must deliver its result; nothing here depends on timing except the
+// generous five seconds after which a handle counts as hanging.
+func (r *nhRun) closeRace(seed int64) {
+	c := r.c
+	for _, h := range c.hosts {
+		r.hmu[h.id-1].RLock()
+		nh, alive := h.nh, h.alive
+		r.hmu[h.id-1].RUnlock()
+		if !alive {
+			continue
+		}
+		var stop int32
+		var wg sync.WaitGroup
+		var mu sync.Mutex
+		panics := map[string]bool{}
+		accepted, results, hung, calls := 0, 0, 0, 0
+		for g := 0; g < 6; g++ {
+			wg.Add(1)
+			go func(g int) {
+				defer wg.Done()
+				rng := rand.New(rand.NewSource(seed*53 + int64(g)))
+				for atomic.LoadInt32(&stop) == 0 {
+					var rs *RequestState
+					var err error
+					func() {
+						defer func() {
+							if x := recover(); x != nil {
+								mu.Lock()
+								panics[fmt.Sprint(x)] = true
+								mu.Unlock()
+								err = ErrClosed
+							}
+						}()
+						switch rng.Intn(3) {
+						case 0:
+							cmd, _ := json.Marshal(nhCmd{Op: "w", K: "z", V: "closerace", ID: 0})
+							rs, err = nh.Propose(nh.GetNoOPSession(c.shard), cmd, 200*time.Millisecond)
+						case 1:
+							rs, err = nh.ReadIndex(c.shard, 200*time.Millisecond)
+						default:
+							_, err = nh.StaleRead(c.shard, nhQuery{Op: "r", K: "a"})
+							if err == nil {
+								err = ErrClosed // nothing to wait for
+							}
+						}
+					}()
+					mu.Lock()
+					calls++
+					mu.Unlock()
+					if err != nil || rs == nil {
+						continue
+					}
+					got := false
+					select {
+					case <-rs.ResultC():
+						got = true
+					case <-time.After(5200 * time.Millisecond):
+					}
+					mu.Lock()
+					accepted++
+					if got {
+						results++
+					} else {
+						hung++
+					}
+					mu.Unlock()
+				}
+			}(g)
+		}
+		time.Sleep(time.Duration(5+h.id*7) * time.Millisecond)
+		r.hmu[h.id-1].Lock()
+		h.nh.Close()
+		h.nh = nil
+		h.alive = false
+		r.hmu[h.id-1].Unlock()
+		c.net.mu.Lock()
+		c.net.dead[h.addr] = true
+		c.net.mu.Unlock()
+		time.Sleep(5 * time.Millisecond)
+		atomic.StoreInt32(&stop, 1)
+		wg.Wait()
+		msgs := []string{}
+		for m := range panics {
+			msgs = append(msgs, m)
+		}
+		sort.Strings(msgs)
+		c.rec.emit("CloseRace", nhEv{"h": h.id, "calls": calls, "accepted": accepted, "results": results, "hung": hung, "panics": msgs})
+	}
 }
 
 func TestVerifNhsim(t *testing.T) {
@@ -773,7 +870,7 @@ func TestVerifNhsim(t *testing.T) {
 		}
 	case "hang":
 		rec.keep = func(ev string) bool {
-			return ev == "Init" || ev == "Hung" || ev == "Panic" || ev == "Res" || ev == "Crash" || ev == "Fault"
+			return ev == "Init" || ev == "Hung" || ev == "Panic" || ev == "Res" || ev == "Crash" || ev == "Fault" || ev == "CloseRace"
 		}
 	case "quiesce":
 		rec.keep = func(ev string) bool {
@@ -813,6 +910,11 @@ func TestVerifNhsim(t *testing.T) {
 		}
 		if os.Getenv("VERIF_STORE") != "" {
 			p.store = os.Getenv("VERIF_STORE")
+		}
+		p.closeRace = mode == "hang"
+		if mode == "hang" && tid%6 == 5 {
+			nhCloseStress(rec, tid, s, 6)
+			continue
 		}
 		if mode == "member" {
 			nhScenarioMember(rec, tid, s, sms[(tid/2)%3], p.store, nhEnvInt("VERIF_ROUNDS", 14))
